@@ -267,7 +267,7 @@ PLANS["C14"] = c14_plan
 def c17_plan(tier, seed, known):
     import os
     thorough = tier == "thorough"
-    binp = os.path.join(os.path.dirname(os.path.dirname(os.path.abspath(__file__))), "build", "bin")
+    binp = os.path.join(os.environ.get("ZKSIM_BUILD_DIR") or os.path.join(os.path.dirname(os.path.dirname(os.path.abspath(__file__))), "build"), "bin")
     peers = ",".join(f"{v}={binp}/simworker-{v}" for v in ["nodefault", "full", "arkzkey", "stateless"])
     jobs = split_jobs("e4", "C17", seed, 900 if thorough else 60, 6, 1, "default", known, tier, extra=["--peers", peers], rayons=(1, 2, 1, 2))
     return {
